@@ -82,7 +82,8 @@ def run(ctx):
     res = Result()
     sp = make_specs(ctx)
     baselines = [0, 1, 2, 3] if ctx.thorough else [0, 1 + ctx.seed % 3]
-    bad, st = envdrive.explore(sp, MON, 1, baselines, ctx.cores, max_per_baseline=120 if not ctx.thorough else 400)
+    bad, st = envdrive.explore(sp, MON, 1, baselines, ctx.cores, max_per_baseline=120 if not ctx.thorough else 400,
+                           resume_legs=(2, 5, 9, 14) if not ctx.thorough else (1, 2, 3, 5, 7, 9, 14, 20, 30))
     byname = {s.name: s for s in sp}
     seen = set()
     for name, err in st["build_failures"]:
